@@ -171,40 +171,55 @@ theorem Auto.normalise {n : Nat} {s : List Char} (ha : Auto n s) : Auto n (norma
 
 /-! ## The template -/
 
-/-- "Every `{` / `}` of the statement lies inside a matched term": the walk of `templateGo` meets no brace
-    outside the spans, and reaches every span. -/
-def bracesInside : Nat → Nat → List RawMatch → List Char → Bool
-  | _, _, ms, [] => ms.isEmpty
-  | skip + 1, pos, ms, _ :: cs => bracesInside skip (pos + 1) ms cs
-  | 0, pos, [], c :: cs => c != '{' && c != '}' && bracesInside 0 (pos + 1) [] cs
-  | 0, pos, m :: ms, c :: cs =>
-    if pos == m.start then bracesInside (m.stop - m.start - 1) (pos + 1) ms cs
-    else c != '{' && c != '}' && bracesInside 0 (pos + 1) (m :: ms) cs
+theorem spansFrom_nil_of_le {lo hi : Nat} (h : hi ≤ lo) : ∀ {ms : List RawMatch}, SpansFrom lo hi ms → ms = []
+  | [], _ => rfl
+  | m :: ms, ⟨h1, h2, h3, _⟩ => by omega
 
+/-- If no brace is left once the match spans are removed (`outside` in `parse_equation`), the template — every
+    span replaced by `{}` — has exactly one automatic field per match and no other brace. -/
 theorem template_auto : ∀ (s : List Char) (skip pos : Nat) (ms : List RawMatch),
-    bracesInside skip pos ms s = true → Auto ms.length (templateGo skip pos ms s)
-  | [], skip, pos, ms, h => by
-    simp [bracesInside] at h; subst h
+    SpansFrom (pos + skip) (pos + s.length) ms → (outsideGo skip pos ms s).any isBrace = false →
+    Auto ms.length (templateGo skip pos ms s)
+  | [], skip, pos, ms, hs, _ => by
+    have : ms = [] := spansFrom_nil_of_le (by simp) hs
+    subst this
     cases skip <;> simp [templateGo] <;> exact .nil
-  | c :: cs, skip + 1, pos, ms, h => by
-    simp only [bracesInside] at h
+  | c :: cs, skip + 1, pos, ms, hs, hb => by
+    simp only [outsideGo] at hb
     simp only [templateGo]
-    exact template_auto cs skip (pos + 1) ms h
-  | c :: cs, 0, pos, [], h => by
-    simp only [bracesInside, Bool.and_eq_true] at h
+    refine template_auto cs skip (pos + 1) ms ?_ hb
+    have e1 : pos + 1 + skip = pos + (skip + 1) := by omega
+    have e2 : pos + 1 + cs.length = pos + (c :: cs).length := by simp; omega
+    rw [e1, e2]; exact hs
+  | c :: cs, 0, pos, [], hs, hb => by
+    simp only [outsideGo, List.any_cons, Bool.or_eq_false_iff] at hb
     simp only [templateGo]
-    exact .lit c (by simpa using h.1.1) (by simpa using h.1.2) (template_auto cs 0 (pos + 1) [] h.2)
-  | c :: cs, 0, pos, m :: ms, h => by
-    simp only [bracesInside] at h
+    have hc : c ≠ '{' ∧ c ≠ '}' := by
+      have := hb.1; simp [isBrace] at this; exact this
+    exact .lit c hc.1 hc.2 (template_auto cs 0 (pos + 1) [] trivial hb.2)
+  | c :: cs, 0, pos, m :: ms, hs, hb => by
+    obtain ⟨h1, h2, h3, h4⟩ := hs
+    simp only [List.length_cons] at h3
+    simp only [outsideGo] at hb
     simp only [templateGo]
-    split at h
+    split at hb
     · rename_i hp
       simp only [hp, if_true, List.length_cons]
-      exact .field (template_auto cs _ (pos + 1) ms h)
+      have hp' : pos = m.start := by simpa using hp
+      refine .field (template_auto cs _ (pos + 1) ms ?_ hb)
+      have e1 : pos + 1 + (m.stop - m.start - 1) = m.stop := by omega
+      have e2 : pos + 1 + cs.length = pos + (cs.length + 1) := by omega
+      rw [e1, e2]; exact h4
     · rename_i hp
-      simp only [hp, if_false] 
-      simp only [Bool.and_eq_true] at h
-      exact .lit c (by simpa using h.1.1) (by simpa using h.1.2) (template_auto cs 0 (pos + 1) (m :: ms) h.2)
+      simp only [hp, if_false]
+      have hp' : pos ≠ m.start := by simpa using hp
+      simp only [List.any_cons, Bool.or_eq_false_iff] at hb
+      have hc : c ≠ '{' ∧ c ≠ '}' := by
+        have := hb.1; simp [isBrace] at this; exact this
+      refine .lit c hc.1 hc.2 (template_auto cs 0 (pos + 1) (m :: ms) ?_ hb.2)
+      have e2 : pos + 1 + cs.length = pos + (cs.length + 1) := by omega
+      rw [e2]
+      exact ⟨by simp at h1; omega, h2, h3, h4⟩
 
 /-! ## Term counts -/
 
@@ -238,5 +253,40 @@ theorem equationTerms_ok (s : List Char) (lt rt : List Term) (h : equationTerms 
         · simp at h
           obtain ⟨rfl, rfl⟩ := h
           exact ⟨l, r, hs, termsOf_length _ _ hl, termsOf_length _ _ hr⟩
+
+theorem equationTerms_err (s : List Char) (e : PErr) (h : equationTerms s = .error e) : e = .parserError := by
+  unfold equationTerms at h
+  split at h
+  · simp at h; exact h.symm
+  · split at h
+    · simp at h; exact h.symm
+    · split at h
+      · simp at h; exact h.symm
+      · split at h
+        · simp at h; exact h.symm
+        · cases h
+
+/-! ## The symbol loop raises only ParserError or SymbolError -/
+
+theorem symLoop_errors : ∀ (ts : List (Bool × Term)) (syms : List (List Char × SymT)) (funcs : List (List Char))
+    (e : PErr), symLoop syms funcs ts = .error e → e = .parserError ∨ e = .indentationError ∨ e = .symbolError
+  | [], _, _, e, h => by simp [symLoop] at h
+  | (lhs, t) :: ts, syms, funcs, e, h => by
+    unfold symLoop at h
+    split at h
+    · exact symLoop_errors ts _ _ e h
+    · split at h
+      · split at h
+        · exact symLoop_errors ts _ _ e h
+        · split at h
+          · simp at h; exact Or.inl h.symm
+          · exact symLoop_errors ts _ _ e h
+      · split at h
+        · simp at h; exact Or.inl h.symm
+        · split at h
+          · exact symLoop_errors ts _ _ e h
+          · split at h
+            · exact symLoop_errors ts _ _ e h
+            · simp at h; exact Or.inr (Or.inr h.symm)
 
 end Fsic.Lx
